@@ -270,6 +270,8 @@ def ite(c, a, b):
         return SeqVal(z3.If(c, a.s, b.s), a.elem)
     if isinstance(a, ObjRef) and isinstance(b, ObjRef):
         return ObjRef(z3.If(c, a.r, b.r), a.cls)
+    if isinstance(a, Record) and isinstance(b, Record) and set(a.attrs) == set(b.attrs):
+        return Record({k: ite(c, a.attrs[k], b.attrs[k]) for k in a.attrs}, a.name)
     if isinstance(a, OptVal) or isinstance(b, OptVal) or a is None or b is None:
         a, b = OptVal.lift(a, like=b), OptVal.lift(b, like=a)
         return OptVal(z3.If(c, a.is_none, b.is_none), ite(c, a.some, b.some),
@@ -636,6 +638,8 @@ def tuple_codec(codecs):
     sort, mk, accs = _pair_sorts[key]
 
     def pack(v):
+        if isinstance(v, list):
+            v = tuple(v)
         if not isinstance(v, tuple) or len(v) != len(codecs):
             raise Unsupported('packing %r as %s' % (v, key))
         return mk(*[c.pack(x) for c, x in zip(codecs, v)])
